@@ -7,6 +7,8 @@ package zzinv
 import (
 	"context"
 
+	"google.golang.org/protobuf/types/known/timestamppb"
+
 	sdk "github.com/cosmos/cosmos-sdk/types"
 
 	baskettypes "github.com/regen-network/regen-ledger/x/ecocredit/v3/basket/types/v1"
@@ -127,7 +129,8 @@ func BatchOK(r *api.Batch) bool {
 	pe := row(TProject, &p, r.ProjectKey)
 	var c api.Class
 	ce := row(TClass, &c, p.ClassKey)
-	return and(v, pe, ce, zz.StrEq(base.GetClassIDFromBatchDenom(r.Denom), c.Id), exists(TBatchSupply, r.Key))
+	return and(v, pe, ce, zz.StrEq(base.GetClassIDFromBatchDenom(r.Denom), c.Id), exists(TBatchSupply, r.Key),
+		TimestampOK(r.StartDate), TimestampOK(r.EndDate), TimestampOK(r.IssuanceDate))
 }
 
 func BatchBalanceOK(r *api.BatchBalance) bool {
@@ -198,7 +201,7 @@ func BasketBalanceOK(r *basketapi.BasketBalance) bool {
 	})
 	var b api.Batch
 	be := lookup(TBatch, "Denom", &b, r.BatchDenom)
-	return and(v, AmountOK(r.Balance), exists(TBasket, r.BasketId), be)
+	return and(v, AmountOK(r.Balance), exists(TBasket, r.BasketId), be, TimestampOK(r.BatchStartDate))
 }
 
 func BasketFeeOK(r *basketapi.BasketFee) bool {
@@ -215,8 +218,20 @@ func SellOrderOK(r *marketapi.SellOrder) bool {
 		zz.PulsarToGogo(&g, r)
 		return g.Validate() == nil
 	})
+	// an open order is backed by an escrow balance row of its seller (I-sum-escrow), and a
+	// stored expiration is a normalised timestamp (it was written by timestamppb.New)
 	return and(v, AmountOK(r.Quantity), zz.QLt(zz.QInt(0), zz.QParse(r.Quantity)),
-		exists(TBatch, r.BatchKey), exists(TMarket, r.MarketId))
+		exists(TBatch, r.BatchKey), exists(TMarket, r.MarketId), exists(TBatchBalance, r.Seller, r.BatchKey), TimestampOK(r.Expiration))
+}
+
+// TimestampOK: nil, or a normalised protobuf timestamp in the valid range.
+func TimestampOK(ts *timestamppb.Timestamp) bool {
+	return zz.Merged(func() bool {
+		if ts == nil {
+			return true
+		}
+		return zz.And(zz.And(ts.Nanos >= 0, ts.Nanos < 1000000000), zz.And(ts.Seconds >= -62135596800, ts.Seconds <= 253402300799))
+	})
 }
 
 func MarketOK(r *marketapi.Market) bool {
